@@ -64,6 +64,8 @@ class C18(Prop):
     # ------------------------------------------------------------------ generation
     def _dir(self, rng, depth=None):
         depth = rng.randint(0, 4) if depth is None else depth
+        if depth >= 1 and rng.random() < 0.25:  # a directory given relative to the working directory is taken as written
+            return "/".join(rng.choice(DIRS) for _ in range(depth))
         return "/" + "/".join(rng.choice(DIRS) for _ in range(depth))
 
     def _case(self, rng, root):
@@ -82,7 +84,7 @@ class C18(Prop):
                 elif kind == "sibling-prefix":
                     names.append((a.rstrip("/") + "2/" if a != "/" else "/x2/") + "/".join(sub) if a != "/" else "rel/" + sub[-1])
                 elif kind == "parent":
-                    par = a.rsplit("/", 1)[0]
+                    par = a.rsplit("/", 1)[0] if "/" in a else ""
                     names.append((par or "") + "/" + sub[-1] if a != "/" else "rel2/" + sub[-1])
                 else:
                     names.append("/".join(sub))
@@ -205,7 +207,7 @@ class C18(Prop):
         return bool(o["orig"]) and (c["A"] is not None or c["B"] is not None)
 
     def tags(self, c, o):
-        return [c["root"], "mode:" + c["kind"], "A:" + ("none" if c["A"] is None else f"depth{c['A'].count('/') if c['A'] != '/' else 0}:{c['A_form']}"),
+        return [c["root"], "mode:" + c["kind"], "A:" + ("none" if c["A"] is None else f"{'abs' if c['A'].startswith('/') else 'rel'}:depth{len([x for x in c['A'].split('/') if x])}:{c['A_form']}"),
                 "B:" + ("none" if c["B"] is None else "given"), "save:" + o["save"], f"recordings:{min(len(o['orig']), 4)}"]
 
 
